@@ -39,6 +39,7 @@ def reset():
     ARM["call"] = None
     ARM["persistent"] = False
     ARM["exc"] = None
+    ARM["bare"] = False
 
 
 def _tick(kind, what):
@@ -48,6 +49,8 @@ def _tick(kind, what):
             if not ARM["persistent"]:
                 ARM[kind] = None
             EVENTS.append(("fault", kind, what))
+            if ARM.get("bare"):
+                raise (ARM.get("exc") or InjectedFault)()          # an exception built without arguments (exc.args == ())
             raise (ARM.get("exc") or InjectedFault)("%s fault at %r" % (kind, what))
         ARM[kind] = k - 1
 
